@@ -89,11 +89,14 @@ def main():
     # 1. translator
     rc, tout = vlib.sh("python3 %s/translate/tr_types.py" % vlib.VERIF)
     trans_problems = [l for l in tout.splitlines() if l.startswith("PROBLEM")]
+    rc2, tout2 = vlib.sh("python3 %s/translate/tr_constchange.py" % vlib.VERIF)
+    trans_problems += [l for l in tout2.splitlines() if l.startswith("PROBLEM")]
     # 2. proofs
-    proved = chk.prove("Properties_C06", extra_targets=["Gen/ConvTable.vo"])
+    proved = chk.prove("Properties_C06", extra_targets=["Gen/ConvTable.vo", "Gen/ConstChange.vo"])
     chk.cov["trusted_base"] += [
         "Coq 8.16.1 kernel, vm_compute (no native_compute)",
         "translator translate/tr_types.py (regex over the two-level switch of _GD_ConvertType; validated below against the compiled function on every case)",
+        "translator translate/tr_constchange.py (_GD_ConstType switch of src/parse.c; conditional expressions of the CONST type change in src/mod.c evaluated with the flag values of getdata.h.in; validated by the gd_alter_const/gd_alter_carray stream)",
         "C conversion semantics as modelled in coq/C06/Convert.v (two's complement, IEEE-754 binary32/64 round-to-nearest-even via Flocq binary_normalize, truncation via Flocq Btrunc); little-endian x86-64 host; gcc -O1",
         "extraction: ExtrOcamlBasic only (no Extract Constant); OCaml 4.13 driver ocaml/C06/driver.ml",
     ]
